@@ -104,3 +104,21 @@ def write_replay(prop, payload):
     p = os.path.join(REPLAYS, "%s-%s.json" % (prop, h))
     save_json(p, payload)
     return p
+
+
+def from_library(ex):
+    """Did this exception come out of code of the library under test (a frame of the imported factorysimpy package is on
+    its traceback, or on that of its cause)?  Used to tell a crash of one of the library's own processes (a verdict
+    matter) from a bug of the harness (machinery failure)."""
+    root = os.path.dirname(src_root()) if os.path.isfile(src_root()) else src_root()
+    seen = set()
+    while ex is not None and id(ex) not in seen:
+        seen.add(id(ex))
+        tb = ex.__traceback__
+        while tb is not None:
+            fn = tb.tb_frame.f_code.co_filename
+            if "factorysimpy" in fn and "/fsverif/" not in fn:
+                return True
+            tb = tb.tb_next
+        ex = ex.__cause__ or ex.__context__
+    return False
